@@ -196,6 +196,14 @@ def apply(st: St, op: list) -> None:
         elif k == 'FM_mat':
             st.FM = st.FM @ M
             res.append(st.FM @ st.WA)
+            # the frozen witness as LEFT operand of every matrix product form
+            res.append(st.WM @ A)
+            res.append(st.WM @ st.WA)
+            res.append(st.WM @ M)
+            res.append(st.WM @ st.WM)
+            x = st.WM
+            x @= A            # must rebind, not rotate the witness
+            res.append(x)
         elif k == 'M_copy':
             how = op[1]
             mk = {'copy': M.copy, 'deepcopy': lambda: copy.deepcopy(M), 'pickle': lambda: pickle.loads(pickle.dumps(M)),
